@@ -13,7 +13,7 @@ var props = map[string]propCfg{
 			"(random bytes, structured text, 1-3 token mutations of repository patches, template-grammar ill-typed patches) crossed with repository test inputs " +
 			"and generated targets in which the minus side occurs; run through patch.Parse+Apply behind recover and a 10 s watchdog, a sample also through the CLI. " +
 			"The template grammar also plants targets in which an optional part that the pattern fills with a metavariable is absent (plain break / continue / return, a[:], no receiver, no result, no initialiser, embedded field, switch without tag ...; 40 templates) and uses elisions in lists that must not be empty (x := ..., ... = f(), var x = ..., case ...:, go ..., x[...]). " +
-			"Non-trivial = the patch got past sectioning and metavariable parsing (reached pgo/engine, or crashed); distinct by sha256(patch, target). Mode 'many-elisions': valid patches with a dozen or more elisions, among them in parameter lists of nested func literals and a leading '...'.",
+			"Non-trivial = the patch got past sectioning and metavariable parsing (reached pgo/engine, or crashed); distinct by sha256(patch, target). Mode 'many-elisions': valid patches with a dozen or more elisions, among them in parameter lists of nested func literals and a leading '...'. Stress mode 'import-combinations': one path listed 1-9 times by the change under metavariable names against a file that imports it 1-9 times. One CLI case in three gives the target a name of 249 bytes (no room for a temporary sibling: the failure to write has to be reported, not crash).",
 		Assumptions: []string{
 			"a hang is 'no return within 10 s' for inputs of at most a few KB (normal run time is below 5 ms)",
 			"native go test -fuzz campaigns cannot be seed-pinned; they are run separately (thorough) and their crashers are replayed here",
@@ -32,7 +32,7 @@ var props = map[string]propCfg{
 		Quick:    tierCfg{Shards: 8, Checks: 2000, Timeout: 4 * time.Minute},
 		Thorough: tierCfg{Shards: 16, Checks: 20000, Timeout: 40 * time.Minute},
 		Rule: "as C01 with generalisation biased to repeated metavariables (same hole for tree-equal subterms, and a forced second occurrence that makes the original code a near-miss) and identifier holes; mutants include 'one occurrence differs / is parenthesised' and 'identifier hole filled with a.b, (a), f(), 5, *p'. " +
-			"Non-trivial = a repeated or identifier metavariable, >= 1 site and >= 1 confirmed near-miss in the same file. One case in 12 is a synthetic nested-choice case (see C01).",
+			"Non-trivial = a repeated or identifier metavariable, >= 1 site and >= 1 confirmed near-miss in the same file. One case in 12 is a synthetic nested-choice case (see C01). One case in 15 is of the import part: an identifier metavariable names an import of the change and qualifies its code ('import pk \"example.com/bound/pkg\"', '-pk.Send(m)'); the file imports the path under a drawn name or none and calls Send through 2-6 drawn qualifiers; only calls through the bound name are instances.",
 		Assumptions: modelAssumptions,
 		MinNontriv:  50,
 	},
@@ -108,7 +108,7 @@ var props = map[string]propCfg{
 		Thorough: tierCfg{Shards: 16, Checks: 12000, Timeout: 40 * time.Minute, Env: []string{"VERIF_C04_MAXPAT=5", "VERIF_C04_MAXPAT_ARGS=6"}},
 		Rule: "part (a), exhaustive: every pattern over {atom a, atom b, metavariable x, metavariable y, elision} up to a length bound with at most 3 elisions, against all lists of length 0..5 (thorough; 364 lists) or 0..4 (quick; 121 lists) over {a,b,c} planted as sites of one file, per list kind (call arguments, composite elements, return results, unnamed and named parameters, results, struct fields, interface methods, block statements inside 'if tgt {', block statements with the implicit leading/trailing elision); oracle = a 30-line backtracking list model (shortest run first, left to right, consistent metavariables) giving match/no-match and the exact output list; quick = call arguments (length <= 5), struct fields and both statement forms (length <= 4), thorough = all kinds with length <= 5 (call arguments <= 6). " +
 			"part (b), generated: mined patterns with 1-3 elisions (lists up to 12 elements, for-headers) in real hosts against the reference matcher. " +
-			"Non-trivial = (a) a (pattern, kind) pair with an elision for which at least one list has a non-empty elided run or is a non-match of length >= 2; (b) a pattern with an elision, >= 1 site and >= 1 elided element. Distinct by (kind, pattern) resp. sha256(patch, file). Part 'pair': '-tgt(P)' '+tgq(P)' with 1-3 elisions in P on the changed line pair (the k-th elision of one side stands for the k-th of the other). Parts 'orphan' (an elision on the '+' side only must not be carried out silently) and 'grouped' (field lists with grouped names).",
+			"Non-trivial = (a) a (pattern, kind) pair with an elision for which at least one list has a non-empty elided run or is a non-match of length >= 2; (b) a pattern with an elision, >= 1 site and >= 1 elided element. Distinct by (kind, pattern) resp. sha256(patch, file). Part 'pair': '-tgt(P)' '+tgq(P)' with 1-3 elisions in P on the changed line pair (the k-th elision of one side stands for the k-th of the other). Parts 'orphan' (an elision on the '+' side only must not be carried out silently) and 'grouped' (field lists with grouped names). Kind 'results-gofmt' (quick and thorough): the result-list patterns against result lists written the way gofmt leaves them (no parentheses around a single unnamed result, nothing for no result).",
 		Assumptions: append([]string{
 			"part (a): elisions stand on context lines of the patch (one element per line), the form the documentation recommends; a pattern of the fixed family that gopatch rejects counts as a violation because every member is accepted on the unchanged tree",
 			"statement patterns with an explicit elision directly next to the implicit leading/trailing one are skipped (the split of elements between the two is not determined by the property)",
@@ -120,7 +120,7 @@ var props = map[string]propCfg{
 		Thorough: tierCfg{Shards: 16, Checks: 40000, Timeout: 20 * time.Minute},
 		Rule: "complete table: patch-side import form {absent, unnamed, literally named, metavariable-named, dot, blank} x file-side imports of the guarded path {none, unnamed, same name, other name, dot, blank, spelled like the metavariable, and 8 two-spec combinations in both orders} x file layout {single imports, one group, group among unrelated imports incl. paths that are a prefix/suffix of the guarded path, two blocks, ...: 8 layouts} x package clause {absent, same, different} x guard line kind {context, '-'} x second guarded import {none, satisfied, missing, present in another form} = 17k cells, in every one of which the code pattern does occur in the file; then generated cells with 0-5 extra unrelated imports in drawn forms. Oracle: the table in the property statement decides applies / no effect; 'no effect' is checked as byte-identical Apply result. " +
 			"Package clause cases: absent, same, different, and the near-misses file foo_test / guard foo, guard foo_test / file foo, both foo_test, guard a prefix of the name, guard longer than the name, other capitalisation. Body shapes: expression -> expression (full cross product), and expression -> several statements, statements -> statement, whole function declaration (crossed with two layouts and two second-guard cases). " +
-			"Non-trivial = every cell (each carries at least one guard); distinct by the cell's coordinates. Variants: a metavariable declared with the name of the guarding package clause; an earlier, never-applying change of the same patch file with the same import clause under the other reading of its name (metavariable vs. literal). Body 'uses-mv' (the code refers to the package through the metavariable that names the import; the file uses the name of the last of its imports of the path).",
+			"Non-trivial = every cell (each carries at least one guard); distinct by the cell's coordinates. Variants: a metavariable declared with the name of the guarding package clause; an earlier, never-applying change of the same patch file with the same import clause under the other reading of its name (metavariable vs. literal). Body 'uses-mv' (the code refers to the package through the metavariable that names the import; the file uses the name of the last of its imports of the path). 'uses-mv' is also crossed with a satisfied second import guard. Variant 'rename_to' ('-' package clause): the change renames the package, to the file's name or another; the '-' clause remains the guard.",
 		Assumptions: []string{
 			"a file that imports the guarded path twice satisfies a guard if any of the two specs has the stated form",
 			"the random part shares the oracle of the table; the table part alone is a complete enumeration of the stated cross product",
@@ -133,7 +133,7 @@ var props = map[string]propCfg{
 		Rule: "part (a): generated files with 0-8 bystander imports (unnamed, named, blank, dot; one group, single declarations, two blocks, with doc and trailing comments; paths that extend or are extended by the subject path) around a subject import, and patches that replace it, change its path keeping its name, delete it, add another import or merely match it, naming it literally, not at all or by an identifier metavariable, optionally with a second deleted or added import; the file still refers to the subject package not at all, plainly, or only through pkg.A.B / pkg.F().B / pkg.T[0].B / a nested func literal / type positions. Oracle on the (name, path) multiset: bystanders unchanged, nothing unmentioned added, '+' imports present once (under the captured name), '-' imports gone iff nothing refers to their package name any more (or a '+' import supplies the same name). " +
 			"Subject paths are plain, gopkg.in/yaml.v2 -> v3 or example.com/codec/v2 -> v3 (the package name is not the last path element); remaining uses include a parameter, a local variable and a receiver named like the package (not references to the package). " +
 			"part (b): mined patterns with '+import' lines on real hosts (host imports must survive as a multiset, the added import appears once). " +
-			"Non-trivial = (a) the change applies, >= 2 bystanders of >= 2 different forms, and the patch adds or deletes an import; (b) >= 1 site and a '+import' line. Kind 'rename-name-keep-path'; part (c) shape 'import added by an earlier change'.",
+			"Non-trivial = (a) the change applies, >= 2 bystanders of >= 2 different forms, and the patch adds or deletes an import; (b) >= 1 site and a '+import' line. Kind 'rename-name-keep-path'; part (c) shape 'import added by an earlier change'. Part (c) shapes added: imports of a change that rewrites nothing (its code occurs only where the '+' code cannot stand) next to a change that does; a blank or dot import on a context line (literal or through a metavariable) stays; a change without import lines whose code pattern is a string or a bare name that also occurs in the import declaration.",
 		Assumptions: append([]string{
 			"the package name of an unnamed import is the last element of its path, and a metavariable import name is spelled like the package (the documented best practice); bystanders never share a package name with a subject import and no local identifier shadows a package name",
 			"an import matched on a context line that is no longer referred to is not judged (the property is silent)",
@@ -155,7 +155,7 @@ var props = map[string]propCfg{
 		Quick:    tierCfg{Shards: 8, Checks: 350, Timeout: 4 * time.Minute},
 		Thorough: tierCfg{Shards: 16, Checks: 2500, Timeout: 40 * time.Minute},
 		Rule: "sequences of 2-5 changes: (a) a mined change on a real host followed by changes that match only the marker code it introduces (bare identifier, empty call, one/two-argument call, call with elision, selector forms), independent changes mined from the same host, and steps that fail at rewrite time (plus side uses an unbound metavariable); (b) synthetic call-rewriting chains fK(...) -> fK+1(...) over a small file (argument permutation, dropping, duplication, wrapping of arguments, elisions that match zero arguments, changes on names that never occur, a later change on a wrapper introduced earlier). The sequence is cut into 1..n patch files and given as one file, several -p, a -P list, -p plus -P, or stdin. (c) guard sequences: 2-5 changes drawn from a pool that renames the package, replaces / adds / deletes / renames imports, or is guarded by a package clause or an import that an earlier change may have introduced or taken away; (d) focused histories on the same calls fK(<nested argument>, <tail>): steps that bind a metavariable to the nested argument and then fail to match, rewrite something strictly inside it, or reproduce it under a new callee (one patch file in a third of the cases, so that whatever a compiled program remembers is shared). Oracle (differential): the combined CLI run vs the chain of single-change runs, each on the bytes the previous one wrote, compared as canonical trees with parentheses looked through; if a single step fails, the combined run must exit non-zero and leave the file byte-identical. " +
-			"Non-trivial = at least two changes applied and one of them does not apply to the original file on its own, or a failing step after at least one applied change; distinct by sha256(changes, file, channel, split). Families added: 'synthetic-emptied' (an elision that stands for nothing empties a result / argument / field list, a later change is about the form without it; optionally a literal not in gofmt's form), 'synthetic-unprintable' (a step whose result cannot be printed, repaired by a later step), 'synthetic-shadowed-package' (a later change names an imported package, the file has a local of that name inside code an earlier change rebuilds). Family 'synthetic-generated-declarations' (an earlier change writes declarations, a later one binds an identifier metavariable at one of them and at an old use).",
+			"Non-trivial = at least two changes applied and one of them does not apply to the original file on its own, or a failing step after at least one applied change; distinct by sha256(changes, file, channel, split). Families added: 'synthetic-emptied' (an elision that stands for nothing empties a result / argument / field list, a later change is about the form without it; optionally a literal not in gofmt's form), 'synthetic-unprintable' (a step whose result cannot be printed, repaired by a later step), 'synthetic-shadowed-package' (a later change names an imported package, the file has a local of that name inside code an earlier change rebuilds). Family 'synthetic-generated-declarations' (an earlier change writes declarations, a later one binds an identifier metavariable at one of them and at an old use). Families 'synthetic-signatures' (an earlier change writes a result list - none, one unnamed, one named, several, or what an elision leaves - and a later one has the signature on context lines in a drawn spelling), 'synthetic-precedence' (an earlier change puts a sum where the printer must parenthesise it - operand of a product, a selector, a call, a unary operator, an index - or leaves one type argument of a list; the later change is written against the printed text). 'Repeat': in one case in six with several patch files the first file is named again at the end (same path), the chain runs its changes again.",
 		Assumptions: []string{
 			"-p files are given before the -P list (gopatch loads all -p patches first; the only unambiguous 'given order')",
 			"a failing step is one whose own single-change run exits non-zero; steps after it are not run in the chain",
@@ -196,7 +196,7 @@ var props = map[string]propCfg{
 			"Every listed call is failed once with each of ENOSPC / EIO / EACCES (read side: EACCES / EIO) and, separately, the process is SIGKILLed on entry to it; the run is also repeated under RLIMIT_FSIZE = N for N in {0..16, a stride through each output size, size-1}. Two fixed trees are enumerated completely in every run (split between the shards), the others are drawn. " +
 			"mode kinds (a complete table over a 3-file tree plus drawn compositions): unparseable source (6 fixed shapes, drawn cuts/insertions), a change whose + side uses an unbound metavariable, a change whose result does not parse, a target whose open fails with EACCES (alone and before/after another failing file), a missing path at each argument position, and a missing / unreadable / directory patch at each position of three patches given with -p or inside a -P list, and the -P list itself. " +
 			"Oracle: every pre-existing file holds its original or its fault-free bytes; after a normal exit no new directory entry remains, after a kill a new entry whose name ends in .go holds the original or patched bytes of some file; if the process was not killed, files the fault does not concern hold the fault-free result; whatever could not be processed (faulted file left unpatched, unreadable target, failing file, missing path, bad patch) makes the exit status non-zero and is named on stderr together with its cause (the errno text, a go/parser message, the metavariable); exit 0 implies every file holds its fault-free bytes. " +
-			"Non-trivial = (faults) the injector's log shows that exactly the intended call was tampered with and the file it belongs to is one the fault-free run rewrites, or the size limit is below the size of a rewritten file and demonstrably took effect; (kinds) at least one failure and at least one other file that the fault-free run rewrites. Distinct by sha256(case, file position, system call, ordinal, fault kind). Table additions: the same failure kind in two files at every pair of positions; an unparseable file that looks generated, with --skip-generated; patch lists that are a directory or hold a 70 000-byte line.",
+			"Non-trivial = (faults) the injector's log shows that exactly the intended call was tampered with and the file it belongs to is one the fault-free run rewrites, or the size limit is below the size of a rewritten file and demonstrably took effect; (kinds) at least one failure and at least one other file that the fault-free run rewrites. Distinct by sha256(case, file position, system call, ordinal, fault kind). Table additions: the same failure kind in two files at every pair of positions; an unparseable file that looks generated, with --skip-generated; patch lists that are a directory or hold a 70 000-byte line. Mode signal (one generated case in six): 200-600 files, SIGINT / SIGTERM / SIGHUP sent once the file at a drawn position has been rewritten; every file holds original or complete patched bytes and exit status 0 is possible only with every file patched. Non-trivial there = the run was stopped midway (some files patched, some not).",
 		Assumptions: []string{
 			"the ptrace injector (harness/props/c16_helpers_test.go, linux/amd64) and prlimit are trusted; every shard first checks that the injector and strace -f -y see the same calls on the two fixed trees (disagreement = inconclusive), and every fault run is only judged if the injector's log shows exactly the intended call tampered with",
 			"fully patched = the bytes a fault-free run of the same command leaves in the file; in mode kinds the fault-free twin is the run over the tree without the failing files (files are processed independently)",
@@ -245,7 +245,7 @@ var props = map[string]propCfg{
 			"cli (about 35% of the cases): every file alone in a tree that holds nothing else vs all together (1-2 patch files; drawn order and spelling of file, directory and '...' arguments with duplicates and overlaps, relative or absolute; in place, -d or --print-only; -v, --skip-generated, --skip-import-processing), the grouped run done twice on an identically re-created tree and optionally in a second arrangement: per-file bytes, per-file stdout, description lines and error texts, exit status must be those of the solo runs; identical bytes give identical results. " +
 			"seq (about 25%): one patch.File, 2-8 Apply calls over 2-6 inputs with repeats, each compared with a fresh Parse + single Apply (bytes, error text). " +
 			"conc (about 40%): the same followed by 2-16 goroutines x 1-3 Apply calls on that patch.File released together, then the sequence again, in a child process of the -race test binary; a race report, a dead or stuck child, or any differing result is a violation. " +
-			"Non-trivial = cli: the grouped run covers >= 2 files of which >= 1 is changed by the patches and >= 1 is not (unchanged, unparseable, failing rewrite, skipped), and the argument list is not the sorted list of those files; seq: >= 3 calls, >= 2 distinct inputs, an input repeated, >= 1 call that rewrites; conc: >= 2 goroutines, >= 2 distinct inputs in the batch, >= 1 rewritten. Distinct by sha256(case). CLI trees may hold names too long to be written back (outcome write-error, the same alone and together) and hard links (two names of one file). Module scenario: sub/go.mod as an extra file, a file of that module and one outside it importing the module next to other third-party packages.",
+			"Non-trivial = cli: the grouped run covers >= 2 files of which >= 1 is changed by the patches and >= 1 is not (unchanged, unparseable, failing rewrite, skipped), and the argument list is not the sorted list of those files; seq: >= 3 calls, >= 2 distinct inputs, an input repeated, >= 1 call that rewrites; conc: >= 2 goroutines, >= 2 distinct inputs in the batch, >= 1 rewritten. Distinct by sha256(case). CLI trees may hold names too long to be written back (outcome write-error, the same alone and together) and hard links (two names of one file). Module scenario: sub/go.mod as an extra file, a file of that module and one outside it importing the module next to other third-party packages. Specials 'captured-name-under-import' (a captured name is the package in one file and a parameter or local in another, under an import the change only mentions) and 'package-guard'; package scenario (cli): every change restricted to one package, directories holding files of that package next to files of others (foo / foo_test).",
 		Assumptions: []string{
 			"the harness does not control the Go scheduler: interleavings of concurrent Apply calls are sampled by stress (goroutines released together on 16 cores), not enumerated; a race that needs a rare schedule can be missed, a reported race is real (the race detector has no false positives)",
 			"'processed alone' = the CLI run on a tree that contains only that file at the same relative path, with the same flags and patch files",
